@@ -127,6 +127,31 @@ def main(p):
                         if not (abs(got - want) <= 1e-9 * max(1.0, abs(want))):
                             fails.append({"cls": cls, "case": name, "pred": repr(g), "y": y, "yerr": s,
                                           "error": "%s.negloglike returned %r, documented formula gives %r" % (cls, r, want)})
+    # a model that hands back its own argument (f(x) = x, as sympy.lambdify compiles it), on a likelihood object that is used again:
+    # the data vectors must be what they were and a second call must give the same number
+    for cls in classes:
+        for n in (1, 3, 7):
+            x = [0.5 + rng.random() * 3 for _ in range(n)]
+            y = [0.2 + rng.random() * 5 for _ in range(n)]
+            s = [0.1 + rng.random() for _ in range(n)]
+            o = mk(cls, x, y, s)
+            keep = {nm: np.array(getattr(o, nm), copy=True) for nm in ("xvar", "yvar", "yerr", "inv_cov") if getattr(o, nm, None) is not None}
+            ident = lambda xx, *a: xx
+            cases += 1
+            try:
+                r1 = o.negloglike([1.0], ident)
+                r2 = o.negloglike([1.0], ident)
+            except Exception as e:
+                fails.append({"cls": cls, "case": "identity model", "error": "%s raised %s: %s" % (cls, type(e).__name__, e)})
+                continue
+            distinct += 1
+            changed = [nm for nm, v in keep.items() if not np.array_equal(np.asarray(getattr(o, nm)), v, equal_nan=True)]
+            if changed:
+                fails.append({"cls": cls, "case": "identity model", "x": x, "y": y, "yerr": s,
+                              "error": "%s.negloglike with the model f(x) = x (which returns the abscissa array itself) modified the likelihood's %s" % (cls, ", ".join(changed))})
+            elif not (r1 == r2 or (r1 != r1 and r2 != r2)):
+                fails.append({"cls": cls, "case": "identity model", "x": x, "y": y, "yerr": s,
+                              "error": "%s.negloglike returned %r and then %r for the same model and parameters on the same object" % (cls, r1, r2)})
     return {"cases": cases, "distinct": distinct, "failures": fails[:5]}
 
 
